@@ -29,6 +29,8 @@ type c08gCase struct {
 	Rooms     []int  `json:"rooms"`
 	RoomOnly  bool   `json:"room_only"` // the broadcasts while away go to the socket's rooms / other rooms alternately instead of the whole namespace
 	After     int    `json:"after"`
+	// after a successful recovery the connection is lost once more, for 3 s, before anything new has been received; one broadcast meanwhile
+	SecondLoss bool `json:"second_loss"`
 }
 
 func evalC08g(c c08gCase) (f *Failure, nontrivial bool) {
@@ -154,6 +156,25 @@ func evalC08g(c c08gCase) (f *Failure, nontrivial bool) {
 			res = fail("rig-connect", fmt.Sprintf("the manager did not reconnect within 3 s after a %d ms outage", c.AwayMs))
 			return
 		}
+		secondLoss := false
+		if c.SecondLoss && cli.Recovered() && window >= 8*time.Second {
+			// the recovered session is lost again before anything newer than the replayed packets has arrived
+			secondLoss = true
+			settle(200 * time.Millisecond)
+			r.Net.SetRefuse(true)
+			r.Net.CutAll()
+			time.Sleep(1500 * time.Millisecond)
+			tok++
+			emit(nsp, tok)
+			want = append(want, tok)
+			time.Sleep(1500 * time.Millisecond)
+			r.Net.SetRefuse(false)
+			settle(3 * time.Second)
+			if !cli.Connected() {
+				res = fail("rig-connect", "the manager did not reconnect within 3 s after the second outage")
+				return
+			}
+		}
 		for i := 0; i < c.After; i++ {
 			tok++
 			emit(nsp, tok)
@@ -163,6 +184,16 @@ func evalC08g(c c08gCase) (f *Failure, nontrivial bool) {
 		settle(time.Second)
 		mu.Lock()
 		defer mu.Unlock()
+		if secondLoss {
+			if len(ids) != 3 || !recovered[2] || ids[2] != ids[0] {
+				res = fail("recovers-iff-eligible", fmt.Sprintf("a recovered session was lost again for 3 s (window %v): connects %d, Recovered() %v, ids %v", window, len(ids), recovered, ids))
+				return
+			}
+			if fmt.Sprint(sortedInts(got)) != fmt.Sprint(sortedInts(want)) {
+				res = fail("exact-missed-packets", fmt.Sprintf("recovered twice in a row: the handler saw %v, want exactly %v, each once (%d before the first loss, %d missed then, 1 missed during the second outage, %d afterwards)", got, want, c.Online, missedUpTo-c.Online, c.After))
+			}
+			return
+		}
 		if len(ids) != 2 {
 			res = fail("rig-connect", fmt.Sprintf("the socket connected %d times", len(ids)))
 			return
@@ -220,7 +251,7 @@ func TestC08_GoClient(t *testing.T) {
 	runRapid(t, c08gCheck, tierN(4000, 60000), func(t *rapid.T) {
 		c := c08gCase{Transport: rapid.SampledFrom([]string{"polling", "websocket"}).Draw(t, "transport"), WindowMs: rapid.SampledFrom([]int{6000, 30000}).Draw(t, "window"),
 			Handler: rapid.SampledFrom([]string{"int", "int-string", "string", "bin-string"}).Draw(t, "handler"), Online: rapid.IntRange(0, 5).Draw(t, "online"),
-			Away: rapid.IntRange(0, 6).Draw(t, "away"), RoomOnly: rapid.Bool().Draw(t, "roomOnly"), After: rapid.IntRange(0, 3).Draw(t, "after")}
+			Away: rapid.IntRange(0, 6).Draw(t, "away"), RoomOnly: rapid.Bool().Draw(t, "roomOnly"), After: rapid.IntRange(0, 3).Draw(t, "after"), SecondLoss: rapid.Bool().Draw(t, "secondLoss")}
 		c.AwayMs = rapid.SampledFrom([]int{100, 1000, 3000, c.WindowMs - 1000, c.WindowMs + 3000}).Draw(t, "awayMs")
 		for i, n := 0, rapid.IntRange(0, 2).Draw(t, "rooms"); i < n; i++ {
 			c.Rooms = append(c.Rooms, rapid.IntRange(0, 2).Draw(t, "room"))
